@@ -87,6 +87,7 @@ def _atoms():
         {"^a": False},
         {"b$": {"type": "string"}},
         {"^a": {"minimum": 2}, "b$": {"type": "integer"}},
+        {"^a": {"type": "integer"}, "b$": {"minimum": 10}, "^ab": {"maximum": 0}},  # {"ab": 1} passes the first and fails the others
         {"[0-9]": True},
         {"^a": {}},
     ):
